@@ -63,7 +63,12 @@ func convRun(w *World, coll bool) {
 	clock := &simClock{}
 	cw.r = newRealRes(cw.cfg, clock, &simRNG{})
 	w.RecordGates = true
-	cw.probe = startProbe(w, cw.r)
+	// the probe (an always-receiving subscriber used to tell a publish reordering from a missed event) is itself a
+	// listener on the bus: in a third of the runs it is left out, so that subscriptions are also opened on a resource
+	// that nobody is listening to yet
+	if !t.Flag(1, 3) {
+		cw.probe = startProbe(w, cw.r)
+	}
 
 	nw := 1 + t.Choose(3)
 	for i := 0; i < nw; i++ {
@@ -100,7 +105,9 @@ func convRun(w *World, coll bool) {
 	for _, s := range cw.subs {
 		s.cancel()
 	}
-	cw.probe.cancel()
+	if cw.probe != nil {
+		cw.probe.cancel()
+	}
 	w.Run()
 }
 
@@ -161,6 +168,9 @@ func (cw *convWorld) commitOrder() (map[string][]string, []hop) {
 
 func (cw *convWorld) publishOrder() map[string][]string {
 	out := map[string][]string{}
+	if cw.probe == nil {
+		return nil
+	}
 	for _, e := range cw.probe.sub.events {
 		if e.Type == types.ChangeType_REMOVE {
 			out[e.ID] = append(out[e.ID], "rm")
@@ -177,7 +187,7 @@ func (cw *convWorld) check(t *Task) {
 	commits, all := cw.commitOrder()
 	pubs := cw.publishOrder()
 	reordered := func(id string) bool {
-		return strings.Join(commits[id], ",") != strings.Join(pubs[id], ",")
+		return pubs != nil && strings.Join(commits[id], ",") != strings.Join(pubs[id], ",")
 	}
 	committedV := map[int32]bool{}
 	for _, h := range all {
